@@ -479,7 +479,13 @@ func c27Report(w *vx.W, cs c27Case, r *c27Run) {
 	case r.minSlack < 1200:
 		sl = "slack<1200"
 	}
-	w.Outcome(fmt.Sprintf("dial=%v/validated=%v/blocked=%v/%s/void=%v/retry=%v/tokenback=%v", r.dialOK, r.validated, r.blocked, sl, r.voidBytes > 0, r.retry, r.tokValid))
+	rt := "false"
+	if r.tokValid {
+		rt = "token-returned"
+	} else if r.retry {
+		rt = "true"
+	}
+	w.Outcome(fmt.Sprintf("dial=%v/validated=%v/blocked=%v/%s/void=%v/retry=%s", r.dialOK, r.validated, r.blocked, sl, r.voidBytes > 0, rt))
 }
 
 func TestVerif_C27(t *testing.T) {
@@ -508,8 +514,8 @@ func TestVerif_C27(t *testing.T) {
 		}
 		kSmall := vx.Pick(c, 2, 3)
 		kBig := vx.Pick(c, 1, 2)
-		c.Rule(fmt.Sprintf("fault enumeration over the handshake of two real quic Endpoints (real TLS, synctest bubble, harness-owned network): scenarios = RequireAddressValidation {off,on} x ClientHello {one, two Initial datagrams} x server certificate chain {1, 10 certificates: the server flight exceeds 3x1200 bytes}; per scenario the default run plus every placement of <= k deviations at increasing datagram indices 0..N+2 (both directions; N = largest datagram count of three default runs; cases are assigned to shards by content hash), kinds {drop, dup, hold1, late (timer first), trunc to 1199/600/100/1 bytes, spoofed source address} (quick tier: pairs use {drop, dup, late, trunc600, spoof}); trunc/spoof only take effect on client->server datagrams; k=%d for the one-datagram-ClientHello scenarios (3 deviations: kinds {drop, late, trunc600, trunc100, spoof}), k=%d for the others; every run lasts 12 s of fake time (past the handshake timeout) so that all server PTOs fire. Monitor at the network, per remote address a: after every datagram the server endpoint writes to a, bytes written to a <= 3 x bytes delivered to the server from a, unless a server conn for a has antiAmplificationLimit==unlimited (white-box, read at the quiescent point) and a datagram carrying a complete Handshake packet (clear-text header walk) was delivered from a. Retry packets and datagrams to the spoofed address are counted. Non-trivial = all deviations took effect and the server came within one full datagram (1200 bytes) of the limit or was seen blocked by it", kSmall, kBig))
-		c.Assume("'validated' is the implementation's own notion (a Handshake packet was processed); an address validated by a Retry token alone is still treated as unvalidated, which is stricter than RFC 9000 requires")
+		c.Rule(fmt.Sprintf("fault enumeration over the handshake of two real quic Endpoints (real TLS, synctest bubble, harness-owned network): scenarios = RequireAddressValidation {off,on} x ClientHello {one, two Initial datagrams} x server certificate chain {1, 10 certificates: the server flight exceeds 3x1200 bytes} x token field of the client's Initial packets {as the real client writes it: empty, or the intact token of a Retry; every empty token field replaced by an 8-byte token nobody issued; with RequireAddressValidation also: the returned Retry token with its last byte flipped} (20 scenarios; the token is rewritten when the client's datagram enters the network, before any deviation, by re-protecting the Initial packet with the public Initial keys); per scenario the default run plus every placement of <= k deviations at increasing datagram indices 0..N+2 (both directions; N = largest datagram count of three default runs; cases are assigned to shards by content hash), kinds {drop, dup, hold1, late (timer first), trunc to 1199/600/100/1 bytes, spoofed source address, dead = the client is silent from that datagram on for the rest of the run (only as the last deviation of a case)} (quick tier: pairs use {drop, dup, late, trunc600, spoof, dead}); trunc/spoof only take effect on client->server datagrams; k=%d for the one-datagram-ClientHello scenarios (3 deviations: kinds {drop, late, trunc600, trunc100, spoof, dead}), k=%d for the others; every run lasts 12 s of fake time (past the handshake timeout) so that all server PTOs fire. Monitor at the network, per remote address a: after every datagram the server endpoint writes to a, bytes written to a <= 3 x bytes delivered to the server from a, unless a server conn for a has antiAmplificationLimit==unlimited (white-box, read at the quiescent point) and one of the validation events of RFC 9000 section 8.1 can have happened (clear-text header walk): a datagram carrying a complete Handshake packet was delivered from a, or a complete Initial packet delivered from a carried byte for byte the token of a Retry packet the server had written to a. Retry packets and datagrams to the spoofed address are counted. Non-trivial = all deviations took effect (and, in the rewritten-token scenarios, at least one Initial packet was rewritten) and the server came within one full datagram (1200 bytes) of the limit or was seen blocked by it", kSmall, kBig))
+		c.Assume("'validated' needs both the implementation's own flag and a black-box necessary condition (Handshake packet delivered, or a Retry token the server issued to that address returned from it); the pinned implementation only lifts the limit on a processed Handshake packet, which is stricter than RFC 9000 requires and is accepted; the server never sends NEW_TOKEN frames, so a Retry packet is the only way it issues a token")
 		c.Assume("stateless resets are not enabled (no StatelessResetKey) and version negotiation is not triggered (both endpoints speak version 1)")
 
 		nOf := map[c27Scn]int{}
